@@ -26,16 +26,21 @@ where
 
         // We store the classes and likelihood info in an vec and matrix
         // respectively for easier identification of the dominant class for
-        // each input
-        let nclasses = joint_log_likelihood.keys().len();
+        // each input. The classes are visited in sorted order, so that the
+        // prediction for a sample (in particular the winner of an exact tie)
+        // does not depend on the iteration order of the hash map
+        let mut joint_log_likelihood: Vec<(&L, Array1<F>)> =
+            joint_log_likelihood.into_iter().collect();
+        joint_log_likelihood.sort_unstable_by(|a, b| a.0.cmp(b.0));
+        let nclasses = joint_log_likelihood.len();
         let n = x.nrows();
         let mut classes = Vec::with_capacity(nclasses);
         let mut likelihood = Array2::zeros((nclasses, n));
         joint_log_likelihood
             .iter()
             .enumerate()
-            .for_each(|(i, (&key, value))| {
-                classes.push(key.clone());
+            .for_each(|(i, (key, value))| {
+                classes.push((*key).clone());
                 likelihood.row_mut(i).assign(value);
             });
 
